@@ -49,6 +49,13 @@ func NewSim(keepLog bool) *Sim {
 	}
 }
 
+func (s *Sim) release() {
+	s.mu.Lock()
+	s.used = map[int64]struct{}{}
+	s.lines = nil
+	s.mu.Unlock()
+}
+
 // Now is the simulated time since the run started.
 func (s *Sim) Now() time.Duration { return time.Since(s.start) }
 
@@ -232,7 +239,11 @@ func Bubble(t *testing.T, keepLog bool, f func(s *Sim)) (leak bool, panicVal any
 		debug.SetGCPercent(old)
 	}()
 	synctest.Test(t, func(t *testing.T) {
-		f(NewSim(keepLog))
+		sim := NewSim(keepLog)
+		// goroutines the code under test leaves blocked keep the Sim reachable
+		// for the life of the process: drop its big tables when the run is over
+		defer sim.release()
+		f(sim)
 	})
 	return
 }
